@@ -1877,7 +1877,7 @@ def gen_h(rng):
             pieces.append(["dir", rng.randrange(len(H_DIRS)), rng.choice(H_DECOR), rng.random() < 0.15])
         else:
             pieces.append([rng.choice(["missing", "file", "empty"])])
-    return {"pieces": pieces, "dbz": rng.choice([None] * 6 + ["stack0", "sub", "sub", "deep", "stack", "other", "nomatch", "stack1", "st.ck", "st.ck"])}
+    return {"pieces": pieces, "dbz": rng.choice([None] * 10 + ["stack0", "sub", "sub", "deep", "stack", "other", "nomatch", "stack1", "st.ck", "st.ck"])}
 
 
 def h_text(c, root):
@@ -2430,7 +2430,7 @@ def check_floors(ctx, done):
                            or h.get("I:with-unsetup", 0) < 0.1 * done["I"]):
         raise common.InfraError("degenerate distribution: histories on one Eups object (%d of %d with a later request answered to the "
                                 "right of an earlier one)" % (h.get("I:later-request-answered-right-of-an-earlier-one", 0), done["I"]))
-    if done["H"] > 100 and h.get("H:stacks-found=0", 0) > 0.6 * done["H"]:
+    if done["H"] > 100 and h.get("H:stacks-found=0", 0) > 0.7 * done["H"]:
         raise common.InfraError("degenerate distribution: most path texts select no stack")
 
 
